@@ -442,13 +442,25 @@ func (obj *Package) DefConst(name string, value Object, doc string) (vv *VarVal)
 		if vv.Const && ObjectEqual(vv.Val, value) {
 			return vv
 		}
-		PackagePanic(NewScope(), 0, obj, "%s is a constant and thus can't be changed", name)
+		if vv.Const || vv.Val != Unbound || vv.Get != nil || vv.Set != nil || vv.Pkg != nil {
+			PackagePanic(NewScope(), 0, obj, "%s is a constant and thus can't be changed", name)
+		}
 	}
 	if obj.Locked {
 		PackagePanic(NewScope(), 0, obj, "Package %s is locked thus no new constants can be set.", obj.Name)
 	}
-	vv = &VarVal{Val: value, Const: true, Pkg: obj, name: name, Doc: doc}
-	obj.vars[name] = vv
+	if vv != nil {
+		// A stand-in made when a function referring to the name was compiled
+		// before the constant was defined. It is filled in so that function
+		// sees the constant just as it sees a variable defined later.
+		vv.Val = value
+		vv.Const = true
+		vv.Doc = doc
+		vv.Pkg = obj
+	} else {
+		vv = &VarVal{Val: value, Const: true, Pkg: obj, name: name, Doc: doc}
+		obj.vars[name] = vv
+	}
 	obj.mu.Unlock()
 	unlock = false
 	callSetHooks(obj, name)
